@@ -194,10 +194,12 @@ inline void observe(const cpc_sketch& s, const Model& m, const std::string& pfx,
   if (o.expect_merged >= 0) VF_CHECK(s.was_merged == (o.expect_merged == 1), pfx + "|merged-flag", ctx);
   if (s.was_merged) {
     // merged form: estimate is a function of (lg_k, C) only
-    const double icon = datasketches::compute_icon_estimate(m.lg_k, static_cast<uint32_t>(m.C));
+    // (keyed on the sketch's own reported coupon count, so that a coupon-count defect does not cascade here)
+    const uint64_t own_c = s.get_num_coupons();
+    const double icon = datasketches::compute_icon_estimate(m.lg_k, static_cast<uint32_t>(own_c));
     VF_CHECK(dbits(est) == dbits(icon), pfx + "|merged-estimate-not-icon-of-lgk-C", ctx + " est=" + str(est) + " icon=" + str(icon));
     const uint64_t mh = m.hash();
-    auto key = std::make_pair(int(m.lg_k), m.C);
+    auto key = std::make_pair(int(m.lg_k), own_c);
     auto it = merged_registry().find(key);
     if (it == merged_registry().end()) { if (merged_registry().size() < 200000) merged_registry()[key] = MergedSeen{dbits(est), mh}; }
     else {
